@@ -1,42 +1,51 @@
 #!/usr/bin/env python3
-"""Confirm seeded changes against the current /repo HEAD in scratch copies (outside /repo and /verif):
- (i) demo exits 0 on the pristine copy, (ii) patch applies, demo exits non-zero, (iii) baseline suite still passes.
-Writes /tmp/seed_confirm.json.  Usage: confirm_seeds.py [C01/a ...]"""
-import json, os, shutil, subprocess, sys, tempfile, glob, re
+"""Confirm seeded changes against the current /repo HEAD in scratch worktrees (outside /repo and /verif):
+ (i) demo exits 0 on the pristine copy, (ii) patch applies and the demo exits non-zero, (iii) the baseline suite
+ still passes with the patch.  Usage: confirm_seeds.py <out.json> <seed dir> [...]   (seed dir holds patch.diff, demo.py)
+Several seeds are confirmed in parallel (VERIF_CONFIRM_JOBS, default 4), each in its own worktree, removed afterwards."""
+import json, os, re, shutil, subprocess, sys, tempfile
+from concurrent.futures import ThreadPoolExecutor
 
-seeds = sys.argv[1:] or sorted(os.path.relpath(d, "/tmp").replace("seed_", "") for d in glob.glob("/tmp/seed_C*/[ab]"))
-out = {}
-base = tempfile.mkdtemp(prefix="vconf.")
-pristine = os.path.join(base, "pristine")
-subprocess.check_call(["git", "-C", "/repo", "worktree", "add", "-q", "--detach", pristine, "HEAD"])
-try:
-    for s in seeds:
-        d = f"/tmp/seed_{s}"
+
+def confirm(d):
+    base = tempfile.mkdtemp(prefix="vconf.")
+    wt = os.path.join(base, "wt")
+    r = {}
+    try:
+        subprocess.check_call(["git", "-C", "/repo", "worktree", "add", "-q", "--detach", wt, "HEAD"])
         patch = os.path.join(d, "patch_rebased.diff") if os.path.exists(os.path.join(d, "patch_rebased.diff")) else os.path.join(d, "patch.diff")
         demo = os.path.join(d, "demo.py")
-        env = dict(os.environ, PYTHONPATH=pristine, PYTHONDONTWRITEBYTECODE="1")
-        r = {}
-        p0 = subprocess.run(["/venv/bin/python", demo], cwd=pristine, env=env, capture_output=True, text=True, timeout=900)
+        env = dict(os.environ, PYTHONPATH=wt, PYTHONDONTWRITEBYTECODE="1")
+        p0 = subprocess.run(["/venv/bin/python", demo], cwd=wt, env=env, capture_output=True, text=True, timeout=1800)
         r["demo_pristine_exit"] = p0.returncode
-        ap = subprocess.run(["git", "-C", pristine, "apply", patch], capture_output=True, text=True)
-        if ap.returncode != 0:
-            ap = subprocess.run(["patch", "-p1", "-s", "-d", pristine, "-i", patch], capture_output=True, text=True)
+        ap = subprocess.run(["git", "-C", wt, "apply", patch], capture_output=True, text=True)
         r["patch_applies"] = ap.returncode == 0
         if r["patch_applies"]:
-            p1 = subprocess.run(["/venv/bin/python", demo], cwd=pristine, env=env, capture_output=True, text=True, timeout=900)
+            p1 = subprocess.run(["/venv/bin/python", demo], cwd=wt, env=env, capture_output=True, text=True, timeout=1800)
             r["demo_variant_exit"] = p1.returncode
             r["demo_variant_tail"] = (p1.stdout + p1.stderr)[-300:]
-            t = subprocess.run(["/venv/bin/python", "-m", "pytest", "-q", "-p", "no:cacheprovider", "--timeout=900", "-n", "8"], cwd=pristine, env=env, capture_output=True, text=True, timeout=1800)
+            t = subprocess.run(["/venv/bin/python", "-m", "pytest", "-q", "-p", "no:cacheprovider", "--timeout=900", "-n", "4"], cwd=wt, env=env, capture_output=True, text=True, timeout=3600)
             m = re.search(r"(\d+) passed", t.stdout)
             r["suite"] = t.stdout.strip().splitlines()[-1] if t.stdout.strip() else t.stderr[-200:]
             r["suite_passed"] = int(m.group(1)) if m else 0
-            r["suite_failed"] = "failed" in r["suite"]
-        subprocess.run(["git", "-C", pristine, "checkout", "--", "."], capture_output=True)
-        subprocess.run(["git", "-C", pristine, "clean", "-fdq"], capture_output=True)
+            r["suite_failed"] = "failed" in r["suite"] or "error" in r["suite"].lower()
         r["confirmed"] = bool(r.get("demo_pristine_exit") == 0 and r.get("patch_applies") and r.get("demo_variant_exit", 0) != 0 and r.get("suite_passed") == 85 and not r.get("suite_failed"))
-        out[s] = r
-        print(s, r.get("confirmed"), {k: v for k, v in r.items() if k != "demo_variant_tail"}, flush=True)
-        json.dump(out, open("/tmp/seed_confirm.json", "w"), indent=1)
-finally:
-    subprocess.run(["git", "-C", "/repo", "worktree", "remove", "--force", pristine])
-    shutil.rmtree(base, ignore_errors=True)
+    except Exception as e:  # noqa
+        r["error"] = repr(e)[:300]
+        r["confirmed"] = False
+    finally:
+        subprocess.run(["git", "-C", "/repo", "worktree", "remove", "--force", wt], capture_output=True)
+        shutil.rmtree(base, ignore_errors=True)
+    return d, r
+
+
+if __name__ == "__main__":
+    outp, dirs = sys.argv[1], sys.argv[2:]
+    out = json.load(open(outp)) if os.path.exists(outp) else {}
+    dirs = [d for d in dirs if d not in out]
+    with ThreadPoolExecutor(max_workers=int(os.environ.get("VERIF_CONFIRM_JOBS", "4"))) as ex:
+        for d, r in ex.map(confirm, dirs):
+            out[d] = r
+            print(d, r.get("confirmed"), {k: v for k, v in r.items() if k != "demo_variant_tail"}, flush=True)
+            json.dump(out, open(outp, "w"), indent=1)
+    subprocess.run(["git", "-C", "/repo", "worktree", "prune"], capture_output=True)
